@@ -110,7 +110,7 @@ def random_case(rng, chk, variant, n):
             elif k == "xor":
                 w[wd] ^= v % m
     ops += ["get32", "get64"]
-    if rng.random() < 0.06:
+    if rng.random() < (0.06 if chk.tier != "thorough" else 0.02):
         # some of the ops on a second thread, native-call counts, life cycle of the global mutex
         out = ["natives"]
         for o in ops:
@@ -173,7 +173,7 @@ def quick_plan(variants):
     """real threads in every run (a few seconds per back-end)"""
     plan = []
     for v in variants:
-        scale = 1 if v != "sim" else 4
+        scale = 1 if v != "sim" else 2
         plan += [(v, "mix", [4, 60000 // scale]), (v, "ticket", [4, 40000 // scale]), (v, "pticket", [3, 40000 // scale]),
                  (v, "dectest", [4, 40000 // scale]), (v, "mp", [20000 // scale])]
     return plan
@@ -232,13 +232,18 @@ def run(chk):
                        "(0, 1, 2, INT_MAX, INT_MIN, 2^31+1, -2, -1, 2^32, 2^32+1, 2^63-1, 2^63, 2^63+1, all-ones; values >= 2^32 reach the "
                        "32-bit ops truncated) plus random stateful sequences of 10 ops (operands uniform 64/32-bit, boundary±3, small; half of the "
                        "compare-and-exchange aimed at the current word); returned value and the word read back from memory compared after every op; "
+                       "directed life-cycle cases and a share of the random ones run ops on a second thread (`T op`), count the native mutex calls of the "
+                       "simulated back-end (`natives`: one lock and one unlock of one and the same mutex per operation, from whichever thread), call "
+                       "p_atomic_thread_init again / shutdown + init, and ask p_atomic_is_lock_free; real threads in every run (all operations mixed on one "
+                       "int and one pointer-sized word crossing 2^32, tickets of both widths, exactly-one-TRUE, message passing); "
                        "a case is distinct by the hash of its op file and non-trivial when it has more than one op; op_evaluations counts single ops")
     chk.cov["exhaustive"] = False
     chk.assumptions += [
         "hardware and compiler implement the __atomic_* / __sync_* builtins as indivisible operations with the stated memory order (trusted, DESIGN §4); "
         "for the lock-free back-ends indivisibility is this contract (one builtin call = one step of the model), not a proved fact",
         "pthread mutexes satisfy POSIX (lock blocks until free, unlock by the owner releases): basis of the bracketed model of patomic-sim.c; "
-        "p_atomic_thread_init () has created pp_atomic_mutex and native lock / unlock do not fail",
+        "p_libsys_init () has called p_atomic_thread_init () (then the mutex exists and stays the same: sim_init_creates, sim_init_idempotent, from the "
+        "translated declaration and life-cycle functions) and native lock / unlock do not fail",
         "`(*atomic)++`, `--(*atomic)`, `oldval + val` on pint / pssize: signed wrap-around is undefined in ISO C but wraps in this build (no -ftrapv); "
         "the sim harness is built without -fsanitize=signed-integer-overflow",
         "sync model: `__sync_synchronize ()` after a plain store / before a plain load gives sequential consistency on x86-TSO only (all_seq_cst_sync "
